@@ -205,6 +205,22 @@ fn verify_global_specs(g_specs: &[SideMetadataSpec]) -> Result<()> {
     Ok(())
 }
 
+/// Hook for the external verification harness: run exactly the spec-set checks of
+/// `verify_metadata_context` (global: total size + pairwise overlap; local: per-spec size +
+/// pairwise overlap) without touching the content sanity map and without panicking.
+#[cfg(feature = "mmtk_verif")]
+pub(super) fn verif_check_specs(
+    global: &[SideMetadataSpec],
+    local: &[SideMetadataSpec],
+) -> std::result::Result<(), String> {
+    verify_global_specs(global).map_err(|e| e.to_string())?;
+    let mut sanity = SideMetadataSanity::new();
+    sanity
+        .specs_sanity_map
+        .insert("verif-policy", local.to_vec());
+    sanity.verify_local_specs().map_err(|e| e.to_string())
+}
+
 // Clippy likes this
 impl Default for SideMetadataSanity {
     fn default() -> Self {
